@@ -46,7 +46,15 @@ def build_engine(spec, weights=None):
     for bi, rb in enumerate(spec["blocks"]):
         rules = []
         for ri, text in enumerate(rb["rules"]):
-            r = fl.Rule.create(text, e)
+            if rb.get("tolerate_rule_errors"):
+                r = fl.Rule()
+                r.parse(text)
+                try:
+                    r.load(e)
+                except Exception:
+                    pass                      # what a caller of RuleBlock.load_rules does with the error it gets
+            else:
+                r = fl.Rule.create(text, e)
             if weights and (bi, ri) in weights:
                 r.weight = weights[(bi, ri)]
             rules.append(r)
